@@ -5,15 +5,33 @@
  *   kind s  fiber_unbounded_sp_channel_t   ONE sender, ONE receiver (SPSC queue of nodes)
  * All three announce a message through ONE fiber_signal_t, which allows one waiting fiber:
  * the single receiver (client contract, fiber_channel.h / fiber_signal.h).
+ *   kind B / U / S  the same three channels created with a NULL ready_signal ("specifying a
+ *                   NULL signal means this channel will spin"): send never raises, the
+ *                   blocking receive loops (bounded: through fiber_yield; unbounded / sp:
+ *                   WITHOUT yielding — on one kernel thread such a receive on an empty
+ *                   channel never lets a sender run, so the generator gives those kinds a
+ *                   blocking `r` only with >= 2 kernel threads).
  *
  * usage: chan <kernel threads> <kind> <log2 capacity> <script>
- * script fiber 0 is the receiver (ops: r receive, y yield); the other fibers are senders
- * (ops: s<v> send the distinct positive integer v, y yield).  For kind s exactly one sender.
- * The generator keeps  #r == #s  so every receive is matched (deadlock-free by construction). */
+ * script fiber 0 is the receiver; the other fibers are senders (ops: s<v> send the distinct
+ * positive integer v, y yield).  For kind s/S exactly one sender.  Receiver ops:
+ *   r  blocking receive          notes `call pop` / `ret pop <v>`
+ *   t  *_try_receive, once       notes `call pop try` / `ret pop <v or 0>` (0 = reported empty)
+ *   d  drain: try_receive, yielding after every empty report, until every message of the
+ *      script has been received
+ *   y  fiber_yield
+ * Deadlock-free by construction: the receiver counts what it has got; an `r` that comes when
+ * everything the script sends has already been received (earlier `t`s took it) is performed
+ * as a `t`, so a blocking receive is only ever entered while a message is still owed by a
+ * sender (pure sender fibers, which never wait for the receiver except on a full ring).  With
+ * #r == #s and no `t` (the original scripts) every `r` blocks as before. */
 #include "rtcommon.h"
 #include "fiber_channel.h"
 
-static char kind;
+static char kind;      /* b / u / s (lower-cased) */
+static int spin_mode;  /* kind letter was upper case: ready_signal = NULL */
+static int total_msgs; /* number of s<v> ops in the script */
+static int got_msgs;   /* messages received so far (receiver fiber only) */
 static fiber_signal_t sig;
 static fiber_bounded_channel_t* bc;
 static fiber_unbounded_channel_t uc;
@@ -30,6 +48,30 @@ static spsc_node_t* smsg[MAXMSG];
  * on scratch being NULL on entry would be woken before its context is saved. */
 VH_NOINSTR static void dirty_own_scratch(void) {
   fiber_manager_get()->current_fiber->scratch = (void*)(intptr_t)-1;
+}
+
+/* one *_try_receive; returns 1 if it delivered a message, 0 = the channel reported empty */
+static int do_try(void) {
+  long v = 0;
+  int got = 0;
+  vr_note("call pop try");
+  if (kind == 'b') {
+    /* the log shows what the call really did: `ret pop <*out>`; a "success" without a
+     * message or a "failure" that stored one contradicts the model at the return note */
+    void* out = NULL;
+    int ok = fiber_bounded_channel_try_receive(bc, &out);
+    v = (long)out;
+    if (ok) got = 1;
+  } else if (kind == 'u') {
+    mpsc_fifo_node_t* n = fiber_unbounded_channel_try_receive(&uc);
+    if (n) { v = (long)n->data; got = 1; }
+  } else {
+    spsc_node_t* n = fiber_unbounded_sp_channel_try_receive(&sc);
+    if (n) { v = (long)n->data; got = 1; }
+  }
+  if (got) got_msgs++;
+  vr_note("ret pop %ld", v);
+  return got;
 }
 
 static void do_op(int t, const char* op) {
@@ -51,8 +93,20 @@ static void do_op(int t, const char* op) {
       vr_note("ret push 1");
       break;
     }
+    case 'd':
+      while (got_msgs < total_msgs) {
+        if (!do_try()) fiber_yield();
+      }
+      break;
+    case 't':
+      do_try();
+      break;
     case 'r': {
       long v;
+      if (got_msgs >= total_msgs) { /* nothing owed any more: must not block */
+        do_try();
+        break;
+      }
       vr_note("call pop");
       dirty_own_scratch(); /* receive may wait on the ready_signal */
       if (kind == 'b') {
@@ -64,6 +118,7 @@ static void do_op(int t, const char* op) {
         spsc_node_t* n = fiber_unbounded_sp_channel_receive(&sc);
         v = (long)n->data;
       }
+      got_msgs++;
       vr_note("ret pop %ld", v);
       break;
     }
@@ -78,22 +133,31 @@ VH_NOINSTR int main(int argc, char** argv) {
   if (argc < 5) return 2;
   int k = atoi(argv[1]);
   kind = argv[2][0];
+  if (kind >= 'A' && kind <= 'Z') {
+    spin_mode = 1;
+    kind = (char)(kind - 'A' + 'a');
+  }
   int p2 = atoi(argv[3]);
   vh_parse(argv[4]);
+  for (int t = 0; t < vh_script.nfibers; t++)
+    for (int i = 0; i < vh_script.nops[t]; i++)
+      if (vh_script.ops[t][i][0] == 's') total_msgs++;
+  fiber_signal_t* const rsig = spin_mode ? NULL : &sig;
+  const char* const mode = spin_mode ? " spin" : "";
   fiber_manager_init(k);
   VH_DIRTY(sig);
   fiber_signal_init(&sig);
   vr_reg(&sig.waiter, 8, "waiter");
   if (kind == 'b') {
     vh_dirty_heap();
-    bc = fiber_bounded_channel_create(p2, &sig);
+    bc = fiber_bounded_channel_create(p2, rsig);
     vr_reg(&bc->high, 8, "high");
     vr_reg(&bc->low, 8, "low");
     for (uint32_t i = 0; i < bc->size; i++) vr_reg(&bc->buffer[i], 8, "buf%u", i);
-    vr_note("init chan b %u", bc->size);
+    vr_note("init chan b %u%s", bc->size, mode);
   } else if (kind == 'u') {
     VH_DIRTY(uc);
-    fiber_unbounded_channel_init(&uc, &sig);
+    fiber_unbounded_channel_init(&uc, rsig);
     vr_reg((void*)&uc.queue.head, 8, "head");
     vr_reg(&uc.queue.tail, 8, "tail");
     vr_obj(uc.queue.tail, sizeof(mpsc_fifo_node_t), "M0");
@@ -105,10 +169,10 @@ VH_NOINSTR int main(int argc, char** argv) {
       vr_reg((void*)&umsg[v]->next, 8, "M%d.next", v);
       vr_reg(&umsg[v]->data, 8, "M%d.data", v);
     }
-    vr_note("init chan u 0");
+    vr_note("init chan u 0%s", mode);
   } else {
     VH_DIRTY(sc);
-    fiber_unbounded_sp_channel_init(&sc, &sig);
+    fiber_unbounded_sp_channel_init(&sc, rsig);
     vr_reg(&sc.queue.head, 8, "head");
     vr_reg(&sc.queue.tail, 8, "tail");
     vr_obj(sc.queue.tail, sizeof(spsc_node_t), "M0");
@@ -120,7 +184,7 @@ VH_NOINSTR int main(int argc, char** argv) {
       vr_reg(&smsg[v]->next, 8, "M%d.next", v);
       vr_reg(&smsg[v]->data, 8, "M%d.data", v);
     }
-    vr_note("init chan s 0");
+    vr_note("init chan s 0%s", mode);
   }
   vh_rt_run(k, do_op, 0);
   vr_finish("OK");
